@@ -74,6 +74,7 @@ class Run:
         self.slots = threading.BoundedSemaphore(int(os.environ.get('VERIF_JOBS', NCPU)))
         self.heavy = threading.BoundedSemaphore(int(os.environ.get('VERIF_HEAVY', 3)))
         self.unit_hashes = {}
+        self.src_dirs = {}
         self.extra_assumptions = []
         self.outside = []
         self.violations = []
@@ -107,14 +108,42 @@ class Run:
             src = self.resolve(unit)
             h = hashlib.sha256(open(src, 'rb').read()).hexdigest()
             self.unit_hashes[unit] = h[:16]
+            src = self.cbmc_source(unit, src)
             out = os.path.join(self.work, 'u_%s.gb' % hashlib.md5(repr(key).encode()).hexdigest()[:12])
-            cmd = ['goto-cc'] + inc_flags() + BASE_DEFS + ['-D%s=%s' % kv for kv in unit_defs.items()] + \
+            extra_inc = ['-I', self.src_dirs[src]] if src in self.src_dirs else []
+            cmd = ['goto-cc'] + inc_flags() + extra_inc + BASE_DEFS + ['-D%s=%s' % kv for kv in unit_defs.items()] + \
                   ['-include', os.path.join(HARNESS, 'prelude.h'), '-c', src, '-o', out]
             r = subprocess.run(cmd, capture_output=True, text=True)
             if r.returncode != 0:
                 raise RuntimeError('goto-cc failed for %s:\n%s' % (unit, r.stderr[-3000:]))
             self.unit_cache[key] = out
             return out
+
+    def cbmc_source(self, unit, src):
+        """R11 work-around for a cbmc 6.11 simplifier bug: `(sexp_sint_t)<ident> < 0` on a tagged
+        pointer is re-expressed as a test of the top bit (same value on every input).  The copy keeps
+        the original path and line numbers through a #line directive."""
+        if not (unit.startswith('repo:') or unit.startswith('work:')):
+            return src
+        txt = open(src, errors='replace').read()
+        new, n = SIGN_RE.subn(lambda m: 'VERIF_NEGP(%s)' % m.group(1), txt)
+        residual = [l.strip()[:120] for l in new.splitlines() if RESIDUAL_RE.search(l) and '#define' not in l]
+        with self.lock:
+            if n:
+                self.extra_assumptions.append('R11: %d sign tests of the form (sexp_sint_t)x < 0 in %s re-expressed as top-bit tests '
+                                              '(cbmc simplifier bug work-around; semantics identical)' % (n, unit))
+            for l in residual:
+                self.extra_assumptions.append('R11-residual: possibly mis-simplified pointer sign test left in %s: %s' % (unit, l))
+        if not n:
+            return src
+        d = os.path.join(self.work, 'src')
+        os.makedirs(d, exist_ok=True)
+        out = os.path.join(d, re.sub(r'[^A-Za-z0-9_.]', '_', unit.split(':', 1)[1]))
+        with open(out, 'w') as f:
+            f.write('#line 1 "%s"\n' % src)
+            f.write(new)
+        self.src_dirs[out] = os.path.dirname(src)
+        return out
 
     def build_query(self, q, witness=True):
         qdir = os.path.join(self.work, 'q_' + re.sub(r'[^A-Za-z0-9_.-]', '_', q.name))
@@ -386,6 +415,8 @@ class Run:
         return 0
 
 
+SIGN_RE = re.compile(r'\(sexp_sint_t\) ?([A-Za-z_][A-Za-z_0-9]*) < 0')
+RESIDUAL_RE = re.compile(r'\(sexp_sint_t\) ?\(?[A-Za-z_][A-Za-z_0-9]*\)? *(<|<=|>|>=) *0(?![0-9x.])')
 PROP_RE = re.compile(r'^\[([^\]]+)\] (?:line \d+ )?(.*): (SUCCESS|FAILURE|UNKNOWN|ERROR)\s*$')
 
 
